@@ -563,3 +563,31 @@ void interfere_q(Q *q) CONTRACT_interfere_q;
 
 #include "notify.h"
 #include "exc.h"
+
+/* ------------------------------------------------------------------ thin form of the predicate boundary (-DOB_THIN): doInvokeFuncWithQueuedEvent shows the predicate a COPY of
+ * the queued event's arguments (exactly once, equal values) and leaves the queued event itself untouched, so that a
+ * declined event stays queued "with the argument values it had when enqueue was called" and an accepted one is
+ * dispatched with them (C05) */
+#ifdef OB_THIN
+extern int g_up_n, g_up_arg; extern _Bool g_up_ret;
+#undef CONTRACT_UserPred_call
+#define CONTRACT_UserPred_call \
+  __CPROVER_assigns(a0->id, g_up_n, g_up_arg, g_up_ret) \
+  __CPROVER_ensures(g_up_n == __CPROVER_old(g_up_n) + 1 && g_up_arg == __CPROVER_old(a0->id) && (g_up_ret == 0 || g_up_ret == 1) && __CPROVER_return_value == g_up_ret)
+#undef CONTRACT_UserPred0_call
+#define CONTRACT_UserPred0_call \
+  __CPROVER_assigns(g_up_n, g_up_ret) \
+  __CPROVER_ensures(g_up_n == __CPROVER_old(g_up_n) + 1 && (g_up_ret == 0 || g_up_ret == 1) && __CPROVER_return_value == g_up_ret)
+#undef CONTRACT_Q_doInvokeFuncWithQueuedEvent__UserPred_QueuedEvent
+#define CONTRACT_Q_doInvokeFuncWithQueuedEvent__UserPred_QueuedEvent \
+  __CPROVER_requires(__CPROVER_is_fresh(self, sizeof(Q)) && __CPROVER_is_fresh(func, sizeof(UserPred)) && __CPROVER_is_fresh(item, sizeof(QueuedEvent)) && g_up_n >= 0 && g_up_n < 1000) \
+  __CPROVER_assigns(g_up_n, g_up_arg, g_up_ret) \
+  __CPROVER_ensures(g_up_n == __CPROVER_old(g_up_n) + 1 && g_up_arg == __CPROVER_old(item->arguments.a0.id) && __CPROVER_return_value == g_up_ret) \
+  __CPROVER_ensures(item->arguments.a0.id == __CPROVER_old(item->arguments.a0.id) && item->event == __CPROVER_old(item->event))
+#undef CONTRACT_Q_doInvokeFuncWithQueuedEvent__UserPred0_QueuedEvent
+#define CONTRACT_Q_doInvokeFuncWithQueuedEvent__UserPred0_QueuedEvent \
+  __CPROVER_requires(__CPROVER_is_fresh(self, sizeof(Q)) && __CPROVER_is_fresh(func, sizeof(UserPred0)) && __CPROVER_is_fresh(item, sizeof(QueuedEvent)) && g_up_n >= 0 && g_up_n < 1000) \
+  __CPROVER_assigns(g_up_n, g_up_ret) \
+  __CPROVER_ensures(g_up_n == __CPROVER_old(g_up_n) + 1 && __CPROVER_return_value == g_up_ret) \
+  __CPROVER_ensures(item->arguments.a0.id == __CPROVER_old(item->arguments.a0.id) && item->event == __CPROVER_old(item->event))
+#endif
